@@ -175,3 +175,7 @@ COMPONENTS = [
               shrink=shrink, compare=compare),
 ]
 COMPONENTS[0].split = split
+
+
+from .gen_E2E import COMPONENT_E2E  # noqa: E402  end-to-end instance (design/E2E.md)
+COMPONENTS.append(COMPONENT_E2E)
